@@ -46,6 +46,11 @@ SUPS = {'SUP[]': [], 'SUP[lz4]': ['lz4'], 'SUP[snappy]': ['snappy'], 'SUP[lz4,sn
 REPLIES = tuple(SUPS) + ('READY', 'AUTHENTICATE', 'CHALLENGE', 'CHALLENGE_BAD', 'AUTH_SUCCESS', 'ERR_BADCRED', 'ERR_SERVER',
                          'ERR_PROTO', 'GARBAGE', 'DISCONNECT', 'SOCKERR', 'EVENT')
 OOB = ('DISCONNECT', 'SOCKERR', 'EVENT')
+# what may still happen to a connection whose handshake has already failed, before the thread waiting in Connection.factory looks at
+# it: '&...' = further bytes in the same read as the fatal reply (the read loop goes on after the first failure)
+SAME_READ = {'&JUNK': b'\x15\x03\x03\x00\x02\x02\x28\x00\x00',     # not a frame of any protocol version (a TLS alert record)
+             '&PUSH_GARBAGE': None}                                  # an undecodable frame on stream -1 (built per version)
+AFTERMATH = tuple(SAME_READ) + ('SOCKERR', 'DISCONNECT')
 
 
 # ------------------------------------------------------------------ snappy stand-in (driver side) and reader (server side)
@@ -255,7 +260,7 @@ class _Step(object):
             if self.reply is None:
                 run.snapshot = run.observe()          # all replies delivered and factory is still waiting
             else:
-                run.apply(self.reply)
+                run.step()
         except Exception:
             import traceback
             raise _HarnessBug(traceback.format_exc())
@@ -266,9 +271,10 @@ class _HarnessBug(BaseException):
 
 
 class Run(object):
-    """one reply sequence, played while the real Connection.factory waits for the handshake"""
-    def __init__(self, cfg, seq):
-        from vt.world.vworld import World, VConnection
+    """one reply sequence, played while the real Connection.factory waits for the handshake (connect=True), or prepared for the
+    schedule layer, whose connecting thread calls connect() and whose reactor thread calls step() (connect=False)"""
+    def __init__(self, cfg, seq, connect=True):
+        from vt.world.vworld import World
         self.version, self.auth, self.compression, self.local = cfg
         self.local = tuple(self.local)
         install_local(self.local)
@@ -277,39 +283,69 @@ class Run(object):
         self.w.__enter__()
         self.history = []          # (reply, request op answered or None)
         self.delivered = []        # reply names delivered while the connection was alive
+        self.queue = list(seq)     # replies not yet played
+        self.fatal = None          # index in history of the reply / event that made the connection fail (the first fatal cause)
         self.conn = None
         self.snapshot = None
         self.returned = None
         self.exc = None
+        if not connect:
+            return
         try:
-            authn = None
-            if self.auth == 'sasl':
-                from cassandra.auth import PlainTextAuthenticator
-                authn = PlainTextAuthenticator('user', 'secret')
-            elif self.auth == 'dict':
-                authn = {'username': 'user', 'password': 'secret'}
             for r in tuple(seq) + (None,):
                 self.srv.outbox.append((_Step(self, r), b''))
             try:
-                kw = {'allow_beta_protocol_version': True} if self.version == 6 else {}
-                self.returned = VConnection.factory('10.0.0.1', 5.0, protocol_version=self.version, authenticator=authn,
-                                                    compression=self.compression, **kw)
-            except Exception as e:
-                self.exc = e
+                self.connect()
             except _HarnessBug as e:
                 raise HarnessError('error in the reply player: %s' % e)
-            if self.conn is None:
-                self.conn = self.w.conns[0]
-            if self.returned is not None and self.returned is not self.conn:
-                raise HarnessError('factory returned another connection')
-            left = [e for e in self.srv.outbox if e[0].reply is not None]
-            if left:
-                raise HarnessError('replies %r were generated after the handshake had ended' % [e[0].reply for e in left])
-            if self.snapshot is None:
-                self.snapshot = self.observe()
+            self.finish()
         except BaseException:
             self.close()
             raise
+
+    def connect(self):
+        """what a connecting thread does: the real Connection.factory"""
+        from vt.world.vworld import VConnection
+        authn = None
+        if self.auth == 'sasl':
+            from cassandra.auth import PlainTextAuthenticator
+            authn = PlainTextAuthenticator('user', 'secret')
+        elif self.auth == 'dict':
+            authn = {'username': 'user', 'password': 'secret'}
+        try:
+            kw = {'allow_beta_protocol_version': True} if self.version == 6 else {}
+            self.returned = VConnection.factory('10.0.0.1', 5.0, protocol_version=self.version, authenticator=authn,
+                                                compression=self.compression, **kw)
+        except Exception as e:
+            self.exc = e
+
+    def finish(self):
+        if self.conn is None:
+            self.conn = self.w.conns[0]
+        if self.returned is not None and self.returned is not self.conn:
+            raise HarnessError('factory returned another connection')
+        if self.queue:
+            raise HarnessError('replies %r were generated after the handshake had ended' % (self.queue,))
+        if self.snapshot is None:
+            self.snapshot = self.observe()
+
+    def is_failed(self):
+        return bool(self.conn.is_closed or self.conn.is_defunct)
+
+    def step(self):
+        """one turn of the reactor: the next reply (with the bytes that arrive in the same read); once the connection has failed,
+        everything that is still to happen to it happens before the thread waiting in Connection.factory runs again"""
+        while self.queue:
+            r = self.queue.pop(0)
+            trail = []
+            while self.queue and self.queue[0] in SAME_READ:
+                trail.append(self.queue.pop(0))
+            first = len(self.history)
+            self.apply(r, trail)
+            if self.fatal is None and self.is_failed():
+                self.fatal = first
+            if not self.is_failed():
+                break
 
     def observe(self):
         c = self.conn
@@ -336,9 +372,13 @@ class Run(object):
         return self.failed() or self.snapshot['event'] or not self.pending()
 
     # -- replies
-    def apply(self, reply):
+    def apply(self, reply, trail=()):
         from vt.world import wire
         conn, st = self.conn, self.conn.server_state
+        if reply in SAME_READ:
+            raise HarnessError('%s does not follow a frame' % reply)
+        if trail and reply in ('DISCONNECT', 'SOCKERR'):
+            raise HarnessError('%r cannot arrive in the same read as %s' % (trail, reply))
         if reply == 'DISCONNECT':
             self.history.append((reply, None))
             conn.close()
@@ -348,14 +388,19 @@ class Run(object):
             conn.defunct(OSError(104, 'Connection reset by peer'))
             return
         v = self.version
+        more = b''
+        for t in trail:
+            more += SAME_READ[t] if SAME_READ[t] is not None else wire.frame(v, -1, wire.OP_RESULT, b'\x00\x00')
         if reply == 'EVENT':
             self.history.append((reply, None))
-            self.send(wire.frame(v, -1, wire.OP_EVENT, wire.event_status('UP', '10.0.0.7')))
+            self.history.extend((t, None) for t in trail)
+            self.send(wire.frame(v, -1, wire.OP_EVENT, wire.event_status('UP', '10.0.0.7')) + more, reply)
             return
         p = [p for p in self.srv.pending if not p.answered][0]
         p.answered = True
         self.srv.pending.remove(p)
         self.history.append((reply, p.req['op']))
+        self.history.extend((t, None) for t in trail)
         if reply in SUPS:
             op, body = wire.OP_SUPPORTED, wire.supported({'CQL_VERSION': ['3.4.5'], 'COMPRESSION': SUPS[reply]})
             if p.req['op'] == 'OPTIONS':
@@ -380,20 +425,20 @@ class Run(object):
             op, body = wire.OP_RESULT, b'\x00\x00'
         else:
             raise HarnessError(reply)
-        data = wire.frame(v, p.stream, op, body)
+        data = wire.frame(v, p.stream, op, body) + more
         accepting = p.req['op'] == 'STARTUP' and reply in ('READY', 'AUTHENTICATE') and st['accepted_at'] is None
         if accepting:
             # this reply itself still travels unframed; everything after it is framed on v5/v6
             st['accepted_at'] = len(st['out'])
             st['startup'] = p.req
-            self.send(data)
+            self.send(data, reply)
             if wire.uses_segments(v):
                 st['seg'] = 'lz4' if p.req.get('options', {}).get('COMPRESSION') == 'lz4' else 'plain'
             # note: the driver may already have pushed its AUTH_RESPONSE from inside feed()
         else:
-            self.send(data)
+            self.send(data, reply)
 
-    def send(self, frame_bytes):
+    def send(self, frame_bytes, reply):
         from vt.world import wire
         st = self.conn.server_state
         if st['seg'] == 'plain':
@@ -401,7 +446,7 @@ class Run(object):
         elif st['seg'] == 'lz4':
             frame_bytes = wire.segments_for_lz4(frame_bytes, connlib.lz4_block_compress)
         if not (self.conn.is_closed or self.conn.is_defunct):
-            self.delivered.append(self.history[-1][0])
+            self.delivered.append(reply)
         self.conn.feed(frame_bytes)
 
 
@@ -444,8 +489,9 @@ def judge(run, part, cfg, seq):
         viol('C47/stuck/after=%s' % (hist[-1][0] if hist else 'nothing'),
              'handshake neither finished nor failed and the driver has no request outstanding')
     # (A) authentication failures <-> AuthenticationFailed, judged on what Connection.factory raised
-    if run.failed() and run.exc is not None and hist:
-        last, qop = hist[-1]
+    # on the first fatal cause: whatever happens to the dead connection afterwards does not change why the handshake failed
+    if run.failed() and run.exc is not None and run.fatal is not None:
+        last, qop = hist[run.fatal]
         is_auth = isinstance(run.exc, AuthenticationFailed)
         authq = qop in ('AUTH_RESPONSE', 'CREDENTIALS')
         if (last == 'AUTHENTICATE' and run.auth == 'none' and qop == 'STARTUP') or (last == 'ERR_BADCRED' and authq):
@@ -455,10 +501,11 @@ def judge(run, part, cfg, seq):
             want = None       # not pinned down by the statement
         else:
             want = False
+        after = '/then-' + '-'.join(h[0] for h in hist[run.fatal + 1:]) if len(hist) > run.fatal + 1 else ''
         if want is True and not is_auth:
-            viol('C47/auth-failure-not-AuthenticationFailed/%s-to-%s' % (last, qop), 'factory raised %r' % (run.exc,))
+            viol('C47/auth-failure-not-AuthenticationFailed/%s-to-%s%s' % (last, qop, after), 'factory raised %r' % (run.exc,))
         if want is False and is_auth:
-            viol('C47/AuthenticationFailed-for-non-auth-failure/%s-to-%s' % (last, qop), 'factory raised %r' % (run.exc,))
+            viol('C47/AuthenticationFailed-for-non-auth-failure/%s-to-%s%s' % (last, qop, after), 'factory raised %r' % (run.exc,))
     # (C) + (S) everything the driver pushed
     from vt.world import wire
     acc = st['accepted_at']
@@ -551,13 +598,14 @@ def probe(run, part, cfg, seq):
 
 def explore_cfg(item):
     connlib.quiet_driver_logs()
-    cfg, maxlen = item
+    cfg, maxlen, maxafter = item
     part = Part()
     seen = set()
+    expanded = set()           # (canonical failed state, fatal reply, request it answered) whose aftermath has been explored
     nready = 0
-    stack = [()]
+    stack = [((), 0)]          # (sequence, number of its trailing elements that are aftermath of a failure)
     while stack:
-        seq = stack.pop()
+        seq, nafter = stack.pop()
         run = play(cfg, seq)
         try:
             judge(run, part, cfg, seq)
@@ -569,7 +617,15 @@ def explore_cfg(item):
                 nready += 1
                 probe(run, part, cfg, seq)
                 judge(run, part, cfg, seq + ('<probe>',))
-            if term or len(seq) >= maxlen:
+            if nafter:
+                if not run.failed() or run.fatal != len(run.history) - 1 - nafter:
+                    raise HarnessError('aftermath %r of %r: connection not failed at the reply before it' % (seq[-nafter:], seq))
+                part.count('executions')
+                part.count('evaluations')
+                part.count('aftermath_executions')
+                part.outcome(('aftermath', run.history[run.fatal][0], '+'.join(seq[-nafter:]), type(run.exc).__name__))
+                part.count('distinct_nontrivial')
+            elif term or len(seq) >= maxlen:
                 part.count('executions')
                 part.count('evaluations')
                 if run.returned is None:
@@ -579,17 +635,30 @@ def explore_cfg(item):
                 if len(seq) >= 3:
                     part.sample({'version': cfg[0], 'auth': cfg[1], 'compression': cfg[2], 'local': list(cfg[3]), 'replies': list(seq),
                                  'factory': 'returned' if run.returned is not None else 'raised %r' % (run.exc,)}, limit=1)
-            if not term and len(seq) < maxlen:
+            if run.failed() and run.fatal is not None and nafter < maxafter:
+                # the dead connection's aftermath: what the same read still holds, a socket error, the peer closing.  Connections
+                # that failed in the same canonical state on the same reply differ only in stream ids: one of them is expanded
+                key = (canon(run), run.history[run.fatal], seq[len(seq) - nafter:])
+                if key not in expanded:
+                    expanded.add(key)
+                    frame_last = seq[-1] not in ('DISCONNECT', 'SOCKERR')
+                    for r in reversed(AFTERMATH):
+                        if r in SAME_READ and not frame_last:
+                            continue
+                        stack.append((seq + (r,), nafter + 1))
+            if not term and len(seq) < maxlen and not nafter:
                 has_pending = bool(run.pending())
                 for r in reversed(REPLIES):
                     if r in OOB or has_pending:
-                        stack.append(seq + (r,))
+                        stack.append((seq + (r,), 0))
         finally:
             run.close()
     part.count('states', len(seen))
     part.count('ready_states', nready)
     if nready == 0:
         raise HarnessError('vacuous: no reply sequence made configuration %r ready' % (cfg,))
+    if maxafter and not expanded:
+        raise HarnessError('vacuous: no failed handshake of configuration %r had its aftermath explored' % (cfg,))
     return part
 
 
